@@ -667,10 +667,25 @@ def check_k9(ctx, rep, f, roles: Roles):
     vr = roles.var_roles(f)
     n = 0
 
+    decoded = set()
+    for st0 in walk_no_nested(f.node):
+        if isinstance(st0, (ast.Assign, ast.AnnAssign)) and getattr(st0, 'value', None) is not None and isinstance(st0.value, ast.Call) and isinstance(st0.value.func, ast.Name) and st0.value.func.id in dec:
+            for t0 in (st0.targets if isinstance(st0, ast.Assign) else [st0.target]):
+                if isinstance(t0, ast.Name):
+                    decoded.add(t0.id)
+    for st0 in walk_no_nested(f.node):
+        # a name that is also bound to something else is not known to be decoded
+        if isinstance(st0, (ast.Assign, ast.AnnAssign)) and getattr(st0, 'value', None) is not None and not (isinstance(st0.value, ast.Call) and isinstance(st0.value.func, ast.Name) and st0.value.func.id in dec):
+            for t0 in (st0.targets if isinstance(st0, ast.Assign) else [st0.target]):
+                if isinstance(t0, ast.Name):
+                    decoded.discard(t0.id)
+
     def raw_role(e):
         # role of an expression that is NOT wrapped by the decoder
         if isinstance(e, ast.Call) and isinstance(e.func, ast.Name) and e.func.id in dec:
             return None
+        if isinstance(e, ast.Name) and e.id in decoded:
+            return None     # the value IS the decoder's output (a set of states), not a label
         rs = Roles.expr_roles(e, vr)
         return next(iter(rs)) if len(rs) == 1 else None
 
